@@ -1,4 +1,5 @@
 """C06 - written text obeys the BibtexFormat contract and carries every block's content."""
+from props import pubapi
 import copy
 import itertools
 import json
@@ -636,7 +637,7 @@ def convert(b, flags):
         return uc.StrSub(x) if (on and type(x) is str) else x
 
     def carry(nb):
-        nb._parser_metadata = dict(b.parser_metadata)
+        pubapi.set_backing(nb, "block.parser_metadata", dict(b.parser_metadata))
         return nb
     t = type(b)
     if t is M.Entry:
@@ -698,7 +699,7 @@ def build_block(d):
         return M.ParsingFailedBlock(error=Exception("x"), start_line=5, raw=d[1])
     if t == "mwerr":
         inner = build_block(d[2])
-        inner._raw = d[1]
+        pubapi.set_backing(inner, "block.raw", d[1])
         return M.MiddlewareErrorBlock(inner, ValueError("boom"))
     if t == "dupfield":
         e = build_block(d[1])
